@@ -382,7 +382,7 @@ class C44(Prop):
         'the files that DEFINE the used modules (C44_full) is FALSE for the unchanged code (C44_full_false: module name != '
         'file stem, dependency node Obj(name=<module>) has no source and is not waited for) and is proved outside that '
         'family (C44_partial, hypothesis KnownStemMismatch fs = false). Tied to the code by trace validation: real '
-        'Lib.build runs with 1..6 workers on generated module DAGs with a logging compiler wrapper; the Lean driver replays '
+        'Lib.build runs with 1, 2, 3, 4 or 6 workers on generated module DAGs with a logging compiler wrapper; the Lean driver replays '
         'each observed log (acceptance), checks the order contract on the observed submit order, derives the dependency '
         'edges and compares them with Builder.get_dependency_graph; a Python oracle checks the ordering invariant on every '
         'log, exactly-once, the worker bound, and equality of object/link/symbol sets with a serial build (gfortran for a '
